@@ -89,3 +89,31 @@ pub fn stub_random_state_new() -> std::hash::RandomState {
 pub fn stub_callsite_register(_c: &'static tracing::callsite::DefaultCallsite) -> tracing::subscriber::Interest {
     tracing::subscriber::Interest::never()
 }
+
+// ---------------------------------------------------------------------------------------------------------
+// Recording stub for `tokio::sync::mpsc::UnboundedSender::send`: tokio's mpsc *receive* side touches runtime
+// thread-locals Kani cannot model, so InternalEvents emitted by a role step are captured here instead
+// (FIFO, like the real channel).  Other message types are dropped (forgotten).
+use d_engine_core::InternalEvent;
+use tokio::sync::mpsc::UnboundedSender;
+use tokio::sync::mpsc::error::SendError;
+pub static mut EVS: [Option<InternalEvent>; 4] = [None, None, None, None];
+pub static mut NEVS: usize = 0;
+
+pub fn stub_send<T>(_s: &UnboundedSender<T>, message: T) -> std::result::Result<(), SendError<T>> {
+    if std::mem::size_of::<T>() == std::mem::size_of::<InternalEvent>()
+        && std::mem::align_of::<T>() == std::mem::align_of::<InternalEvent>()
+    {
+        unsafe {
+            let ev: InternalEvent = std::ptr::read(&message as *const T as *const InternalEvent);
+            std::mem::forget(message);
+            assert!(NEVS < 4);
+            EVS[NEVS] = Some(ev);
+            NEVS += 1;
+        }
+    } else {
+        std::mem::forget(message);
+    }
+    Ok(())
+}
+
